@@ -13,6 +13,8 @@
 #[path = "gen/ll_t_parser.rs"] mod ll_t_parser;
 #[path = "gen/lr_t_grammar_trait.rs"] mod lr_t_grammar_trait;
 #[path = "gen/lr_t_parser.rs"] mod lr_t_parser;
+#[path = "gen/ll_n_grammar_trait.rs"] mod ll_n_grammar_trait;
+#[path = "gen/ll_n_parser.rs"] mod ll_n_parser;
 
 use parol_runtime::{ParolError, Token, parser::parse_tree_type::TreeConstruct};
 
@@ -41,6 +43,7 @@ user_grammar!(ll_grammar, LlGrammar, LlGrammarTrait, ll_grammar_trait);
 user_grammar!(lr_grammar, LrGrammar, LrGrammarTrait, lr_grammar_trait);
 user_grammar!(ll_t_grammar, LlTGrammar, LlTGrammarTrait, ll_t_grammar_trait);
 user_grammar!(lr_t_grammar, LrTGrammar, LrTGrammarTrait, lr_t_grammar_trait);
+user_grammar!(ll_n_grammar, LlNGrammar, LlNGrammarTrait, ll_n_grammar_trait);
 
 #[derive(Debug, Clone, PartialEq)]
 struct Leaf { ty: u16, start: usize, end: usize, text: String, line: u32, col: u32 }
@@ -114,8 +117,8 @@ fn line_col(s: &str, off: usize) -> (u32, u32) {
 }
 
 struct Run { ok: bool, leaves: Vec<Leaf>, events: Vec<Ev>, panicked: bool }
-/// variant: 0 = LL(k), 1 = LALR(1), 2 = LL(k) with trim_parse_tree, 3 = LALR(1) with trim_parse_tree
-const VARIANTS: [&str; 4] = ["LL(k)", "LALR(1)", "LL(k) trimmed", "LALR(1) trimmed"];
+/// variant: 0 = LL(k), 1 = LALR(1), 2 = LL(k) with trim_parse_tree, 3 = LALR(1) with trim_parse_tree, 4 = LL(k) with recovery disabled
+const VARIANTS: [&str; 5] = ["LL(k)", "LALR(1)", "LL(k) trimmed", "LALR(1) trimmed", "LL(k) recovery disabled"];
 fn run(v: usize, input: &str) -> Run {
     let inp = input.to_string();
     let r = std::panic::catch_unwind(move || {
@@ -124,14 +127,15 @@ fn run(v: usize, input: &str) -> Run {
             1 => { let mut g = lr_grammar::LrGrammar::default(); let r = lr_parser::parse_into(&inp, &mut col, "x", &mut g); (r.is_ok(), col.leaves, g.events) }
             2 => { let mut g = ll_t_grammar::LlTGrammar::default(); let r = ll_t_parser::parse_into(&inp, &mut col, "x", &mut g); (r.is_ok(), col.leaves, g.events) }
             3 => { let mut g = lr_t_grammar::LrTGrammar::default(); let r = lr_t_parser::parse_into(&inp, &mut col, "x", &mut g); (r.is_ok(), col.leaves, g.events) }
+            4 => { let mut g = ll_n_grammar::LlNGrammar::default(); let r = ll_n_parser::parse_into(&inp, &mut col, "x", &mut g); (r.is_ok(), col.leaves, g.events) }
             _ => { let mut g = ll_grammar::LlGrammar::default(); let r = ll_parser::parse_into(&inp, &mut col, "x", &mut g); (r.is_ok(), col.leaves, g.events) }
         }
     });
     match r { Ok((ok, leaves, events)) => Run { ok, leaves, events, panicked: false }, Err(_) => Run { ok: false, leaves: vec![], events: vec![], panicked: true } }
 }
 
-const CLAUSES: [(&str, &str); 9] = [
-    ("C14 C17", "parse does not panic"),
+const CLAUSES: [(&str, &str); 10] = [
+    ("C14 C17 C19", "parse does not panic"),
     ("C14 C17", "acceptance: success iff the input is a sentence of the toy grammar (no error token, every `;` directly after an `a`; skipped tokens do not matter)"),
     ("C14", "tree leaves are contiguous, in order, start at 0 and end at the input length"),
     ("C14", "leaf texts equal the input slices of their byte ranges (texts concatenate to the input)"),
@@ -140,6 +144,7 @@ const CLAUSES: [(&str, &str); 9] = [
     ("C14", "line/column positions of unmatched-gap leaves match the text"),
     ("C17", "semantic actions see exactly the significant tokens, in order (skipped and state-skipped tokens never influence the derivation)"),
     ("C17", "every comment is passed to on_comment exactly once, in input order"),
+    ("C19", "parse returns: no single parse runs longer than the watchdog limit (30 s)"),
 ];
 /// index of the first violated clause
 fn check(v: usize, input: &str) -> Option<usize> {
@@ -152,7 +157,7 @@ fn check(v: usize, input: &str) -> Option<usize> {
     let expect_ok = !want.iter().any(|t| t.ty == ERR) && semi_ok;
     if r.ok != expect_ok { return Some(1); }
     if !r.ok { return None; }
-    let trimmed = v >= 2;
+    let trimmed = v == 2 || v == 3;
     if trimmed {
         // no tree is built: only the action and comment clauses apply (and nothing may reach the tree builder)
         if !r.leaves.is_empty() { return Some(4); }
@@ -181,12 +186,31 @@ fn check_events(r: &Run, want: &[RTok]) -> Option<usize> {
 }
 const PIECES: [&str; 12] = ["a", "b", "#", " ", "\n", "//c\n", "/*c*/", "?", "ä", "//", "\t", ";"];
 fn esc(s: &str) -> String { s.chars().map(|c| format!("{}", c as u32)).collect::<Vec<_>>().join(",") }
+static PROGRESS: std::sync::atomic::AtomicU64 = std::sync::atomic::AtomicU64::new(0);
+static CURRENT: std::sync::Mutex<String> = std::sync::Mutex::new(String::new());
+/// a monitor thread: when one parse makes no progress for 30 s the search reports the hanging input and exits
+fn start_watchdog() {
+    std::thread::spawn(|| {
+        let mut last = u64::MAX; let mut since = std::time::Instant::now();
+        loop {
+            std::thread::sleep(std::time::Duration::from_millis(500));
+            let p = PROGRESS.load(std::sync::atomic::Ordering::Relaxed);
+            if p != last { last = p; since = std::time::Instant::now(); }
+            else if since.elapsed().as_secs() >= 30 {
+                let cur = CURRENT.lock().map(|c| c.clone()).unwrap_or_default();
+                println!("BORDER-VIOLATION\t{}\t{}", CLAUSES[9].1, cur);
+                std::process::exit(1);
+            }
+        }
+    });
+}
 fn main() {
     std::panic::set_hook(Box::new(|_| {}));
     let a: Vec<String> = std::env::args().collect();
     if a[1] == "search" {
         let prop = a[2].as_str();
         let maxlen: usize = a[3].parse().unwrap();
+        start_watchdog();
         let mut cases = 0u64;
         let mut stack: Vec<Vec<usize>> = vec![vec![]];
         // the first violating input per clause; the search goes on so that one violated clause (possibly a
@@ -201,6 +225,8 @@ fn main() {
             for v in 0..VARIANTS.len() {
                 if excluded { continue; }
                 cases += 1;
+                PROGRESS.fetch_add(1, std::sync::atomic::Ordering::Relaxed);
+                if let Ok(mut c) = CURRENT.lock() { *c = format!("{{\"v\":{},\"chars\":[{}]}}", v, esc(&input)); }
                 if let Some(ci) = check(v, &input) {
                     if first[ci].is_none() { first[ci] = Some(format!("{{\"v\":{},\"chars\":[{}]}}", v, esc(&input))); }
                 }
